@@ -709,6 +709,13 @@ struct Dumper {
       return;
     json::Object O;
     O["q"] = bareName(VD);
+    {
+      // where the declaration's tokens were written (differs from the
+      // expansion location for declarations produced by a macro)
+      SourceLocation SL = SM.getSpellingLoc(VD->getBeginLoc());
+      PresumedLoc PL = SM.getPresumedLoc(SL);
+      O["spelling"] = PL.isValid() ? std::string(PL.getFilename()) : std::string();
+    }
     O["t"] = typeStr(VD->getType());
     O["file"] = fileOf(VD->getLocation());
     O["line"] = (int64_t)lineOf(VD->getLocation());
